@@ -202,7 +202,8 @@ let stats_check line =
                  "means"; "provenance-column-not-from-one-sample"] why)
 
 (* ---- real runs: the harness prints
-        "IN <recorded samples as a stats case> EXP <e0>|<e1>|<e2>|<e3> OUT <stats line>"
+        "IN <recorded samples as a stats case> EXP <e0>|<e1>|<e2>|<e3> TAL <rows of sample 0>;<rows of sample 1>;.. OUT <stats line>"
+   rows = gc:gs:sc:ss:ac:as:dc:ds, the allocator tally of the sample's timed section (known to the harness), "-" = no samples
    e_k = "=c" (a constant counter c had the last word for kind k), "!" (no counter of kind k), "*" (no expectation),
    "-" (input counter, no samples) or, for an input counter, the samples joined by ";", a sample = comma list
    of the counts of its inputs, "v^k" = k inputs of count v ---- *)
@@ -211,17 +212,27 @@ let find_sub (s : string) (key : string) (from : int) : int option =
   let rec go k = if k + lk > ls then None else if String.sub s k lk = key then Some k else go (k + 1) in
   go from
 
-let split_in_out (i : string) : (string * string * string) option =
+let split_in_out (i : string) : (string * string * string * string) option =
   if String.length i < 3 || String.sub i 0 3 <> "IN " then None
   else
     match find_sub i " EXP " 3 with
     | None -> None
     | Some pe ->
-      (match find_sub i " OUT " pe with
+      (match find_sub i " TAL " pe with
        | None -> None
-       | Some po ->
-         Some (String.sub i 3 (pe - 3), String.sub i (pe + 5) (po - pe - 5),
-               String.sub i (po + 5) (String.length i - po - 5)))
+       | Some pt ->
+         (match find_sub i " OUT " pt with
+          | None -> None
+          | Some po ->
+            Some (String.sub i 3 (pe - 3), String.sub i (pe + 5) (pt - pe - 5), String.sub i (pt + 5) (po - pt - 5),
+                  String.sub i (po + 5) (String.length i - po - 5))))
+
+(* the recorded allocation infos: one per sample with a non-zero tally row, carrying exactly that row *)
+let allocs_ok (inner : string) (tal : string) : bool =
+  let inp = parse_case inner in
+  let rows = if tal = "-" then [] else
+      List.map (fun r -> List.map n_of_string (String.split_on_char ':' r)) (String.split_on_char ';' tal) in
+  List.length rows = List.length inp.in_durs && alloc_records_sb rows inp.in_allocs
 
 (* sum of the input counts of one sample *)
 let sample_sum (s : string) : n =
@@ -249,14 +260,18 @@ let stored_ok (inner : string) (exp : string) : bool =
 let run_mode dbg line =
   let (_, i) = split_sb line in
   match split_in_out i with
-  | Some (inner, exp, out) -> "IN " ^ inner ^ " EXP " ^ exp ^ " OUT " ^ stats_mode dbg (inner ^ "\t" ^ out)
+  | Some (inner, exp, tal, out) ->
+    "IN " ^ inner ^ " EXP " ^ exp ^ " TAL " ^ tal ^ " OUT " ^ stats_mode dbg (inner ^ "\t" ^ out)
   | None -> "no-recording"
 
 let run_check line =
   let (_, i) = split_sb line in
   match split_in_out i with
-  | Some (inner, exp, out) ->
-    if not (stored_ok inner exp) then verdict false "stored-counts-not-one-per-sample-with-the-samples-own-value-or-not-the-last-constant"
+  | Some (inner, exp, tal, out) ->
+    if not (stored_ok inner exp) then
+      verdict false "stored-counts-not-one-per-sample-with-the-samples-own-value-or-not-the-last-constant"
+    else if not (allocs_ok inner tal) then
+      verdict false "allocation-records-not-exactly-the-samples-with-a-nonzero-tally"
     else stats_check (inner ^ "\t" ^ out)
   | None -> verdict false ("outcome:" ^ i)
 
